@@ -32,47 +32,211 @@ func entryPos(fn *ssa.Function) cfgPos { return cfgPos{fn.Blocks[0], 0} }
 // reachAvoiding searches for a path from any start to an instruction satisfying target that
 // does not execute an instruction satisfying blocker. Returns the witness path (block indexes)
 // and the target reached. edgeOK (optional) prunes CFG edges (used for path conditions).
+//
+// The search is interprocedural to a bounded depth: a call to a function of this module whose code
+// (transitively) contains an instruction satisfying blocker or target (returns excepted) is entered — the
+// search continues at the callee's entry with the call site on a frame stack; a Return inside an entered
+// callee pops the frame and continues after the call, it is never a target. A call through a parameter
+// that the entered frame's call site binds to a closure or a function is entered likewise. So a guard,
+// an undo step or a loop body that was moved into a helper (or a callback) is still seen on the path, and
+// a helper that performs the step on some of its paths only is judged path by path.
 func reachAvoiding(starts []cfgPos, target, blocker func(ssa.Instruction) bool, edgeOK func(from, to *ssa.BasicBlock) bool) (ssa.Instruction, []int, bool) {
-	type node struct {
-		pos  cfgPos
-		path []int
+	type frame struct {
+		site ssa.CallInstruction
 	}
-	seen := map[*ssa.BasicBlock]bool{}
+	type node struct {
+		pos    cfgPos
+		path   []int
+		frames []frame
+	}
+	interesting := func(in ssa.Instruction) bool {
+		if _, isRet := in.(*ssa.Return); isRet {
+			return false
+		}
+		return (blocker != nil && blocker(in)) || target(in)
+	}
+	enterMemo := map[*ssa.Function]bool{}
+	worthEntering := func(fn *ssa.Function) bool {
+		if fn == nil || len(fn.Blocks) == 0 || !strings.HasPrefix(funcPkgPath(fn), modPath) || isTestdataOrMock(fn) {
+			return false
+		}
+		if v, ok := enterMemo[fn]; ok {
+			return v
+		}
+		enterMemo[fn] = false
+		v := reachesInstrFree(fn, interesting, 3, map[*ssa.Function]bool{})
+		enterMemo[fn] = v
+		return v
+	}
+	key := func(fr []frame, b *ssa.BasicBlock) string {
+		var sb strings.Builder
+		for _, f := range fr {
+			fmt.Fprintf(&sb, "%p/", f.site)
+		}
+		fmt.Fprintf(&sb, "%p", b)
+		return sb.String()
+	}
+	// callee entered at a call instruction, given the frames (for calls through bound parameters)
+	calleeAt := func(c ssa.CallInstruction, frames []frame) *ssa.Function {
+		if cal := calleeOf(c); cal != nil {
+			return cal
+		}
+		com := c.Common()
+		if com.IsInvoke() {
+			return nil
+		}
+		switch v := com.Value.(type) {
+		case *ssa.MakeClosure:
+			return v.Fn.(*ssa.Function)
+		case *ssa.Parameter:
+			if len(frames) == 0 {
+				return nil
+			}
+			site := frames[len(frames)-1].site
+			fn := v.Parent()
+			for i, prm := range fn.Params {
+				if prm != v {
+					continue
+				}
+				args := site.Common().Args
+				if site.Common().IsInvoke() || i >= len(args) {
+					return nil
+				}
+				a := args[i]
+				for {
+					if ct, ok := a.(*ssa.ChangeType); ok {
+						a = ct.X
+						continue
+					}
+					break
+				}
+				switch av := a.(type) {
+				case *ssa.MakeClosure:
+					return av.Fn.(*ssa.Function)
+				case *ssa.Function:
+					return av
+				}
+			}
+		}
+		return nil
+	}
+	seen := map[string]bool{}
+	roots := map[*ssa.Function]bool{}
 	var stack []node
 	for _, s := range starts {
-		stack = append(stack, node{s, []int{s.B.Index}})
+		stack = append(stack, node{s, []int{s.B.Index}, nil})
+		roots[s.B.Parent()] = true
 	}
+	steps := 0
 	for len(stack) > 0 {
+		steps++
+		if steps > 200000 {
+			break
+		}
 		n := stack[len(stack)-1]
 		stack = stack[:len(stack)-1]
 		b := n.pos.B
-		blocked := false
-		for i := n.pos.I; i < len(b.Instrs); i++ {
+		stop := false
+		for i := n.pos.I; i < len(b.Instrs) && !stop; i++ {
 			in := b.Instrs[i]
 			if blocker != nil && blocker(in) {
-				blocked = true
+				stop = true
+				break
+			}
+			if _, isRet := in.(*ssa.Return); isRet && len(n.frames) > 0 {
+				// pop: continue after the call site
+				site := n.frames[len(n.frames)-1].site
+				rest := n.frames[:len(n.frames)-1]
+				ap := afterInstr(site)
+				k := key(rest, ap.B) + fmt.Sprintf("@%d", ap.I)
+				if !seen[k] {
+					seen[k] = true
+					stack = append(stack, node{ap, append(append([]int{}, n.path...), ap.B.Index), rest})
+				}
+				stop = true
 				break
 			}
 			if target(in) {
 				return in, n.path, true
 			}
+			if c, ok := in.(ssa.CallInstruction); ok && len(n.frames) < 3 {
+				if _, isGo := in.(*ssa.Go); isGo {
+					continue
+				}
+				if _, isDefer := in.(*ssa.Defer); isDefer {
+					continue
+				}
+				if cal := calleeAt(c, n.frames); cal != nil && worthEntering(cal) {
+					recursive := false
+					for _, f := range n.frames {
+						if calleeAt(f.site, nil) == cal {
+							recursive = true
+						}
+					}
+					if cal == b.Parent() || roots[cal] {
+						recursive = true
+					}
+					if !recursive {
+						nf := append(append([]frame{}, n.frames...), frame{c})
+						k := key(nf, cal.Blocks[0])
+						if !seen[k] {
+							seen[k] = true
+							stack = append(stack, node{cfgPos{cal.Blocks[0], 0}, append(append([]int{}, n.path...), -1, cal.Blocks[0].Index), nf})
+						}
+						stop = true
+						break
+					}
+				}
+			}
 		}
-		if blocked {
+		if stop {
 			continue
 		}
 		for _, s := range b.Succs {
 			if edgeOK != nil && !edgeOK(b, s) {
 				continue
 			}
-			if seen[s] {
+			k := key(n.frames, s)
+			if seen[k] {
 				continue
 			}
-			seen[s] = true
+			seen[k] = true
 			np := append(append([]int{}, n.path...), s.Index)
-			stack = append(stack, node{cfgPos{s, 0}, np})
+			stack = append(stack, node{cfgPos{s, 0}, np, n.frames})
 		}
 	}
 	return nil, nil, false
+}
+
+// reachesInstrFree: fn (transitively through static module callees and closures it creates) contains an
+// instruction satisfying pred.
+func reachesInstrFree(fn *ssa.Function, pred func(ssa.Instruction) bool, depth int, seen map[*ssa.Function]bool) bool {
+	if fn == nil || fn.Blocks == nil || seen[fn] {
+		return false
+	}
+	seen[fn] = true
+	for _, b := range fn.Blocks {
+		for _, in := range b.Instrs {
+			if pred(in) {
+				return true
+			}
+			if depth > 0 {
+				if c, ok := in.(ssa.CallInstruction); ok {
+					if cal := calleeOf(c); cal != nil && strings.HasPrefix(funcPkgPath(cal), modPath) {
+						if reachesInstrFree(cal, pred, depth-1, seen) {
+							return true
+						}
+					}
+				}
+				if mc, ok := in.(*ssa.MakeClosure); ok {
+					if reachesInstrFree(mc.Fn.(*ssa.Function), pred, depth-1, seen) {
+						return true
+					}
+				}
+			}
+		}
+	}
+	return false
 }
 
 func isReturn(in ssa.Instruction) bool { _, ok := in.(*ssa.Return); return ok }
@@ -129,6 +293,10 @@ func orPred(ps ...func(ssa.Instruction) bool) func(ssa.Instruction) bool {
 func pathStr(path []int) string {
 	var s []string
 	for _, i := range path {
+		if i == -1 {
+			s = append(s, "(into callee)")
+			continue
+		}
 		s = append(s, fmt.Sprint(i))
 	}
 	return "blocks " + strings.Join(s, "→")
